@@ -74,6 +74,11 @@ world w {{ import j; }}"#
         from_spec("i@0.2.1 as func", "a:b/i@0.2.1", f0.clone()),
         from_spec("i@1.1.0{f,n{x}}", "a:b/i@1.1.0", i(&[("f", f0.clone()), ("n", i(&[("x", f0.clone())]))])),
         from_spec("i@0.2.5{g}", "a:b/i@0.2.5", i(&[("g", f0.clone())])),
+        from_spec("i@0.20.1{f}", "a:b/i@0.20.1", i(&[("f", f0.clone())])),
+        from_spec("i@10.2.0{g}", "a:b/i@10.2.0", i(&[("g", f0.clone())])),
+        // multi-digit components on an existing track (numeric, not textual, order)
+        from_spec("i@0.2.10{f}", "a:b/i@0.2.10", i(&[("f", f0.clone())])),
+        from_spec("i@1.10.0{f}", "a:b/i@1.10.0", i(&[("f", f0.clone())])),
         // WIT-derived: interfaces that `use` types of other (merged) interfaces
         from_wit("wit j@1.0.0 uses i@0.2.0", &[("ab.wit", &ab("0.2.0")), ("cd.wit", &cd("1.0.0", "0.2.0"))], "w"),
         from_wit("wit j@1.1.0 uses i@0.2.1", &[("ab.wit", &ab("0.2.1")), ("cd.wit", &cd("1.1.0", "0.2.1"))], "w"),
